@@ -176,6 +176,11 @@ class SoupClientSession(SoupSession, session_type='client'):
             self.log.error('%s> Login rejected, %s', self.session_id, str(reply))
             await self.close()
             raise ConnectionRefusedError(str(reply))
+        if not self.is_active():
+            # the connection was lost while the acceptance was being delivered: starting the
+            # heartbeat monitors now would leave them running on a closed session
+            await self.close()
+            raise ConnectionRefusedError('Connection closed by peer.')
 
         self.session_id.update(reply)
         self.sequence = reply.sequence
